@@ -9,6 +9,7 @@ import Abmarl.Model.MaskDriver
 import Abmarl.Model.ConfigDriver
 import Abmarl.Model.ObserversDriver
 import Abmarl.Model.DoneDriver
+import Abmarl.Model.PlacementDriver
 /-! Line-protocol driver: one request per line on stdin, one reply per line on stdout. -/
 open Abmarl
 
@@ -34,6 +35,8 @@ def dispatch (line : String) : String :=
       | "gdone" => DoneDriver.handleDone args
       | "gsmart" => DoneDriver.handleSmart args
       | "gmerge" => DoneDriver.handleMerge args
+      | "gplace" => PlacementDriver.handlePlace args
+      | "gmaze" => PlacementDriver.handleMaze args
       | "ping" => some (.list (.atom "pong" :: args))
       | _ => none
     match r with
